@@ -15,6 +15,15 @@ def handleC09 : List String → String
     let status := if exitOk (c == "true") (d == "true") o then "exit0" else "exit1"
     let file := if o.contents == src then "unchanged" else if o.contents == fmtd then "rewritten-formatted" else "rewritten-other"
     s!"{status} {file}"
+  | ["clidir", c, d] =>
+    -- the fixed directory of the harness: unformatted, formatted, unformatted, broken, unformatted
+    let fmt : String → Option String := fun s =>
+      if s == "U" then some "T" else if s == "B" then none else some s
+    let files := ["U", "T", "U", "B", "U"]
+    let (outs, ok) := runFiles fmt (c == "true") (d == "true") files
+    let showOne := fun (p : String × Outcome) =>
+      if p.2.contents == p.1 then "unchanged" else if p.2.contents == "T" then "rewritten-formatted" else "rewritten-other"
+    s!"{if ok then "exit0" else "exit1"} {",".intercalate ((files.zip outs).map showOne)}"
   | _ => "bad-op"
 
 end Incan.Driver
